@@ -1,0 +1,34 @@
+//go:build verif
+
+package jerr
+
+// VerifFileName returns the name of the file the location points into.
+func (l Location) VerifFileName() string {
+	if l.file == nil {
+		return ""
+	}
+	return l.file.Name()
+}
+
+// VerifTrace returns the include trace as (path, line) pairs, innermost first.
+func (e *JApiError) VerifTrace() [][2]string {
+	res := make([][2]string, 0, len(e.includeTrace))
+	for _, i := range e.includeTrace {
+		res = append(res, [2]string{i.path, uitoa(uint(i.atLine))})
+	}
+	return res
+}
+
+func uitoa(n uint) string {
+	if n == 0 {
+		return "0"
+	}
+	var b [20]byte
+	i := len(b)
+	for n > 0 {
+		i--
+		b[i] = byte('0' + n%10)
+		n /= 10
+	}
+	return string(b[i:])
+}
